@@ -102,7 +102,7 @@ if [ "$ID" = C08 ]; then
 fi
 if ! go build -tags "$TAGS" $RACE $OVERLAY -o "$BUILD/$id_lc" "./cmd/$id_lc" 2>"$BUILD/build.log"; then
   cat "$BUILD/build.log" >&2
-  if [ -n "$OVERLAY" ] && grep -q "harness/gen/" "$BUILD/build.log"; then
+  if [ -n "$OVERLAY" ] && grep -q -E "harness/gen/|$BUILD/gen/|^# verif/gen/" "$BUILD/build.log"; then
     violation_file "generated-code-does-not-compile" "$BUILD/build.log"; exit 1
   fi
   echo "BUILD-FAILED property=$ID" >&2
